@@ -1,3 +1,5 @@
 #!/bin/bash
-# builds the remaining framework crates offline (none yet besides the extractor)
-exit 0
+# builds the bounded-leg crate (real /repo crates + executable oracle) offline, into /verif/target
+set -e
+cd /verif/conform
+CARGO_NET_OFFLINE=true CARGO_TARGET_DIR=/verif/target cargo build --offline
